@@ -12,13 +12,16 @@
    (same chargemap, opposite direction), distinct in-range contracted axes aa / ab
    (ONE OR MORE), free legs la / rb of ANY number of axes (none, one, several):
 
-     C06_fused_eq_blockwise:  equal charge; the blockwise result's index tables are
-       the free legs of the aligned operands with unused charges pruned; and
+     C06_fused_eq_blockwise:  equal charge; EQUAL INDEX TABLES (after the alignment
+       every charge of a free leg occurs in a stored sector that has a partner, so
+       the pruning of the blockwise result drops nothing and both results carry the
+       free legs of the aligned operands); and
        sem (fused) cs = sem (blockwise) cs for EVERY coordinate list cs in range of
        the free legs of the aligned operands (a superset of the coordinates in
        range of either result's own tables).
      C06_all_modes_agree:  auto / fused / blockwise of a_tensordot2 return results
-       with equal charge and equal sem on the same coordinates.
+       with equal charge, equal index tables and equal sem everywhere
+       (C06_all_modes_agree_full with the extra hypothesis aa <> []).
 
    Ingredients, each a theorem: (i) alignment preserves wf_array (the `_full`
    statement of Props/C06.v); (ii) C06_fused_coordinate_sum_split: a sum over the
@@ -29,9 +32,7 @@
    semantics of fuse_core (Props/C05b.v, C05_fuse_core_sem).
 
    Not covered: no contracted axis at all (aa = []) through the FUSED route (then
-   `auto` takes the blockwise route: C06_tensordot_modes); equality of the index
-   tables of the fused result with the pruned tables; coordinates outside the
-   tables.  C03_tensordot_element_full is NOT discharged: it is stated for
+   `auto` takes the blockwise route: C06_tensordot_modes).  C03_tensordot_element_full is NOT discharged: it is stated for
    Fermi.f_tensordot over Array.tdot_fused (a_unfuse_all) with blocks_ok operands,
    the theorems here are for Fused.tdot_fused2 with wf_array operands. *)
 From SV Require Import Base.Prelude Base.Sym Base.Tensor Model.Sectors Model.Array Model.Wf Model.Fused
@@ -98,10 +99,9 @@ Theorem C06_fused_eq_blockwise :
   aa <> [] ->
   let f := tdot_fused2 G R a b la aa ab rb in
   let w := tdot_blockwise G R a b la aa ab rb in
-  let free := without_axes (indices G R (al_a G R a b aa ab)) aa ++ without_axes (indices G R (al_b G R a b aa ab)) ab in
   charge G R f = charge G R w /\
-  indices G R w = prune_indices G free (sectors G R w) /\
-  forall cs, coords_ok G free cs = true -> sem G R f cs = sem G R w cs.
+  indices G R f = indices G R w /\
+  forall cs, sem G R f cs = sem G R w cs.
 Proof. exact fused_eq_blockwise. Qed.
 
 Theorem C06_all_modes_agree :
@@ -111,10 +111,9 @@ Theorem C06_all_modes_agree :
   wf_array G R a = true -> wf_array G R b = true ->
   axes_ok (ndim G R a) aa = true -> axes_ok (ndim G R b) ab = true ->
   legs_match G R a b aa ab -> aa <> [] ->
-  let free := without_axes (indices G R (al_a G R a b aa ab)) aa ++ without_axes (indices G R (al_b G R a b aa ab)) ab in
   exists r1 r2, a_tensordot2 G R a b axes m1 = Some r1 /\ a_tensordot2 G R a b axes m2 = Some r2 /\
-    charge G R r1 = charge G R r2 /\
-    forall cs, coords_ok G free cs = true -> sem G R r1 cs = sem G R r2 cs.
+    charge G R r1 = charge G R r2 /\ indices G R r1 = indices G R r2 /\
+    forall cs, sem G R r1 cs = sem G R r2 cs.
 Proof. exact all_modes_agree. Qed.
 
 Print Assumptions C06_alignment_preserves_wf_proved.
